@@ -46,6 +46,11 @@ const COMPOSITES: &[&str] = &[
     "BoundedInt<0, 0>",
     "BoundedInt<-1, 1>",
     "BoundedInt<0, 255>",
+    // ranges whose ends sit on the range-check bound 2^128 / below zero (one-sided casts, constrain halves)
+    "BoundedInt<1, 340282366920938463463374607431768211456>",
+    "BoundedInt<340282366920938463463374607431768211456, 340282366920938463463374607431768211556>",
+    "BoundedInt<-5, 127>",
+    "BoundedInt<-340282366920938463463374607431768211456, -1>",
     "Array<felt252>",
     "Box<felt252>",
     "Snapshot<Array<felt252>>",
@@ -243,10 +248,10 @@ fn arg_alphabet(types: &[String]) -> Vec<A> {
 /// The small type set used for pairs.
 fn small_types(u: &Universe, tier: Tier) -> Vec<String> {
     let want: &[&str] = match tier {
-        Tier::Quick => &["felt252", "u8", "u128", "Struct<ut@Tuple>", "Enum<ut@Never>", "Array<felt252>", "BoundedInt<0, 0>", "Const<felt252, 1>", "CircuitInput<0>"],
+        Tier::Quick => &["felt252", "u8", "u128", "Struct<ut@Tuple>", "Enum<ut@Never>", "Array<felt252>", "BoundedInt<0, 0>", "BoundedInt<1, 340282366920938463463374607431768211456>", "Const<felt252, 1>", "CircuitInput<0>"],
         Tier::Thorough => &[
             "felt252", "u8", "u128", "i8", "RangeCheck", "Struct<ut@Tuple>", "Struct<ut@Empty>", "Enum<ut@Never>", "Enum<ut@Opt, felt252, Struct<ut@Tuple>>",
-            "Struct<ut@Pair, felt252, u8>", "Array<felt252>", "Box<felt252>", "NonZero<felt252>", "BoundedInt<0, 0>", "BoundedInt<-1, 1>", "BoundedInt<0, 255>",
+            "Struct<ut@Pair, felt252, u8>", "Array<felt252>", "Box<felt252>", "NonZero<felt252>", "BoundedInt<0, 0>", "BoundedInt<-1, 1>", "BoundedInt<0, 255>", "BoundedInt<1, 340282366920938463463374607431768211456>", "BoundedInt<340282366920938463463374607431768211456, 340282366920938463463374607431768211556>", "BoundedInt<-5, 127>", "BoundedInt<-340282366920938463463374607431768211456, -1>",
             "Const<felt252, 1>", "Const<Struct<ut@Tuple>>", "Const<u8, 2>", "CircuitInput<0>", "CircuitInput<1>", "AddModGate<CircuitInput<0>, CircuitInput<1>>",
             "InverseGate<CircuitInput<0>>", "Snapshot<Array<felt252>>",
         ],
